@@ -6,19 +6,67 @@ Round trip of recipe header lines: parse (print h) = h.
 namespace Just.Header
 open Just Just.Syntax
 
-/-- the default of a parameter is a value (what `parse_value` returns) -/
+/-- what `parse_value` returns: a literal, a variable or a call (of any name but `assert`: a parameter default is read by
+`parse_value` directly, where `if` is no keyword), an `assert`, a parenthesised expression -/
+def WFValue : Expr → Prop
+  | .var n => n ≠ "assert"
+  | .call n args => n ≠ "assert" ∧ WFs args
+  | .str _ => True
+  | .backtick _ => True
+  | .assert a _ b m => WF a ∧ WF b ∧ WF m
+  | .group e => WF e
+  | .concat _ _ => False
+  | .joinL _ _ => False
+  | .joinR _ => False
+  | .and _ _ => False
+  | .or _ _ => False
+  | .cond _ _ _ _ _ => False
+
+/-- the default of a parameter is a value -/
 def WFParam (p : Param) : Prop :=
   match p.default with
-  | some d => WF d ∧ level d = 0
+  | some d => WFValue d
   | none => True
 
+/-- `parse_value` reads a printed value back -/
+theorem parseValue_rt (d : Expr) (hw : WFValue d) (fuel : Nat) (rest : List Tk) (hf : 4 * d.size ≤ fuel) (hafter : After d rest) :
+    parseValue fuel (printE d ++ rest) = some (d, rest) := by
+  have hgen : WF d → level d = 0 → parseValue fuel (printE d ++ rest) = some (d, rest) := by
+    intro hwf hl
+    have := roundtrip_core d hwf 0 (by omega) (by omega) fuel rest (by omega) (fun _ _ => by simp [blocksE]) hafter
+    simpa [parseAt] using this
+  cases d with
+  | var n =>
+    obtain ⟨f', rfl⟩ : ∃ f', fuel = f' + 1 := ⟨fuel - 1, by simp [Expr.size] at hf; omega⟩
+    simp only [WFValue] at hw
+    simp only [printE, List.singleton_append]
+    exact parseValue_var _ _ _ hw (hafter n rfl).1 (hafter n rfl).2
+  | call n args =>
+    simp only [Expr.size] at hf
+    obtain ⟨f', rfl⟩ : ∃ f', fuel = f' + 1 := ⟨fuel - 1, by omega⟩
+    simp only [WFValue] at hw
+    have hargs := roundtripArgs_core args hw.2 f' rest (by omega)
+    simp only [printE, List.append_assoc, List.cons_append, List.nil_append, List.singleton_append] at hargs ⊢
+    exact parseValue_call_ok hw.1 hargs
+  | str s => exact hgen (by simp [WF]) (by simp [level])
+  | backtick s => exact hgen (by simp [WF]) (by simp [level])
+  | assert a o b m => simp only [WFValue] at hw; exact hgen (by simp only [WF]; exact hw) (by simp [level])
+  | group e => simp only [WFValue] at hw; exact hgen (by simp only [WF]; exact hw) (by simp [level])
+  | concat l r => simp [WFValue] at hw
+  | joinL l r => simp [WFValue] at hw
+  | joinR r => simp [WFValue] at hw
+  | and l r => simp [WFValue] at hw
+  | or l r => simp [WFValue] at hw
+  | cond a o b t x => simp [WFValue] at hw
+
 /-- arguments of a dependency: well-formed expressions; an argument after the first must not begin
-with a token that would continue its predecessor: an operator `/`, `+`, `&&`, `||` - or, when the
+with a token that would continue its predecessor: `&&`, `||`, or `/`, `+` when the predecessor does not end in a
+conditional (`StopE`) - or, when the
 predecessor ends with an identifier, `(` (a call) or, after `x`, a string (a shell-expanded literal) -/
 def WFArgs : List Expr → Prop
   | [] => True
   | [e] => WF e
-  | e :: e' :: es => WF e ∧ Stop 3 (printE e') ∧ After e (printE e') ∧ WFArgs (e' :: es)
+  | e :: e' :: es => WF e ∧ StopE 3 e (printE e') ∧ After e (printE e') ∧ WFArgs (e' :: es)
 
 def WFDep (d : Dep) : Prop := WFArgs d.args
 
@@ -49,9 +97,7 @@ theorem parseParam_rt (fuel : Nat) (p : Param) (hw : WFParam p) (rest : List Tk)
   | some d =>
     simp only [WFParam] at hw
     simp only [AfterParam] at hrest
-    have hv := roundtrip_core d hw.1 0 (by omega) (by omega) fuel rest (by have := hfuel d rfl; omega)
-      (fun _ _ => rfl) hrest
-    simp only [parseAt] at hv
+    have hv := parseValue_rt d hw fuel rest (hfuel d rfl) hrest
     cases exported with
     | true => simp only [printDollar, printDefault, if_true, tDollar, tEquals, List.cons_append, List.nil_append, List.append_assoc, parseParam, hv]
     | false => simp only [printDollar, printDefault, Bool.false_eq_true, if_false, tEquals, List.nil_append, List.cons_append, List.append_assoc, parseParam, hv]
@@ -142,7 +188,7 @@ theorem printE_ne_nil : (e : Expr) → printE e ≠ []
   | .assert _ _ _ _ => by simp [printE]
   | .group _ => by simp [printE]
 
-theorem stop_append {k : Nat} {l : List Tk} (more : List Tk) (hne : l ≠ []) (h : Stop k l) : Stop k (l ++ more) := by
+theorem stopE_append {k : Nat} {e : Expr} {l : List Tk} (more : List Tk) (hne : l ≠ []) (h : StopE k e l) : StopE k e (l ++ more) := by
   intro t ht
   cases l with
   | nil => exact absurd rfl hne
@@ -171,12 +217,12 @@ theorem parseDepArgs_rt (efuel : Nat) (args : List Expr) (hw : WFArgs args)
       | cons e' es' =>
         simp only [printArgList, List.append_assoc]
         exact after_append _ (printE_ne_nil e') hw.2.2.1
-    have hstop : Stop 3 (printArgList es ++ .rparen :: rest) := by
+    have hstop : StopE 3 e (printArgList es ++ .rparen :: rest) := by
       cases es with
-      | nil => exact stop_cons 3 _ _ (by simp [blocks])
+      | nil => exact stopE_cons 3 _ _ _ (by simp [blocksE])
       | cons e' es' =>
         simp only [printArgList, List.append_assoc]
-        exact stop_append _ (printE_ne_nil e') hw.2.1
+        exact stopE_append _ (printE_ne_nil e') hw.2.1
     have he := roundtrip_core e hwe 3 (level_le3 e) (Nat.le_refl _) efuel (printArgList es ++ .rparen :: rest)
       (hfuel e (by simp)) hstop hafter
     simp only [parseAt] at he
